@@ -150,6 +150,63 @@ theorem C05_quiescent {P : Params} (hcap : 1 ≤ P.cap) {s : State} (hr : Reacha
     (hstuck : ∀ t, step P s t = none) : s.isDone = true ∧ ∀ l p, s.pc l = some p → p = .done :=
   stuck_all_done hcap hr hstuck
 
+/-! ### the gate with `cond.Wait` / `cond.Signal` made explicit
+
+`GState` / `gstep` (`Dawn/Model/Runner.lean`) refine the model: a thread that finds the gate full goes to sleep and can
+move again only after an `exit` has signalled it (`Signal` wakes the longest waiter; no spurious wake-ups), then re-tests
+the capacity. Every refined step is a step of the core model or leaves it unchanged, so C04, C09 and the cycle theorems
+hold of `g.core` for every `GReachable P g`; termination needs its own proof, because a free slot no longer enables a
+sleeper. -/
+
+/-- refinement: the core of a reachable refined state is reachable in the core model -/
+theorem signal_refines {P : Params} {g : GState} (h : GReachable P g) : Reachable P g.core := h.core
+
+/-- C05 / C09 with `Signal` semantics: no reachable unfinished state is stuck, for every limit ≥ 1 — a sleeper is never
+    left behind with a slot free, because `exit` signals on every release (invariant `InvG.wake`: while anybody sleeps,
+    the free slots are at most the threads standing at the gate awake). -/
+theorem C05_deadlock_free_signal {P : Params} (hcap : 1 ≤ P.cap) {g : GState} (hr : GReachable P g)
+    (hnd : g.core.isDone = false) : ∃ t g', gstep P g t = some g' :=
+  g_deadlock_free hcap hr hnd
+
+theorem C05_quiescent_signal {P : Params} (hcap : 1 ≤ P.cap) {g : GState} (hr : GReachable P g)
+    (hstuck : ∀ t, gstep P g t = none) : g.core.isDone = true ∧ ∀ l p, g.core.pc l = some p → p = .done :=
+  g_stuck_all_done hcap hr hstuck
+
+/-- C09: nobody sleeps in `gate.enter` while a slot is free and nobody who could take it is on the way -/
+theorem C09_no_lost_wakeup {P : Params} {g : GState} (hr : GReachable P g) (hq : g.gateQ ≠ []) :
+    g.core.capacity ≤ (g.core.registry.filter (awake g)).length :=
+  hr.invG.wake hq
+
+/-- a root with four leaves, limit two -/
+def fan4 : Params where
+  deps := fun l => match l with | 0 => [1, 2, 3, 4] | _ => []
+  known := fun _ => true
+  bodyOk := fun _ => true
+  cap := 2
+  root := 0
+
+/-- 1 and 2 take the two slots, 3 and 4 go to sleep, 1 and 2 release back to back, then everybody else runs alone -/
+def fan4Sched : List Tid :=
+  [.main] ++ List.replicate 14 (.tgt 0) ++ [.tgt 1, .tgt 2, .tgt 3, .tgt 4] ++ List.replicate 3 (.tgt 1) ++
+  List.replicate 3 (.tgt 2) ++ List.replicate 12 (.tgt 3) ++ List.replicate 8 (.tgt 1) ++ List.replicate 8 (.tgt 2) ++
+  List.replicate 3 (.tgt 0)
+
+/-- Regression witness (seeded change "signal only when the first slot frees"): with `exit` signalling only on the
+    transition 0 → 1, an ACYCLIC build with limit two reaches a state in which `Run` has not returned and no thread
+    can move: target 4 sleeps in `gate.enter` with both slots free. `C05_deadlock_free_signal` fails for that gate. -/
+theorem C05_signal_only_when_first_slot_frees_counterexample :
+    ∃ g, GReachableV true fan4 g ∧ g.core.isDone = false ∧ g.asleep 4 = true ∧ g.core.capacity = 2 ∧
+      (threads g.core).all (fun t => (gstepV true fan4 g t).isNone) = true := by
+  have h : ∃ g, grunSched true fan4 (ginit fan4) fan4Sched = some g ∧ g.core.isDone = false ∧ g.asleep 4 = true ∧
+      g.core.capacity = 2 ∧ (threads g.core).all (fun t => (gstepV true fan4 g t).isNone) = true := by
+    decide +kernel
+  obtain ⟨g, h1, h2⟩ := h
+  exact ⟨g, greachableV_of_grunSched _ .init h1, h2⟩
+
+/-- under the code's gate (`exit` always signals) the same schedule leaves target 4 awake and able to take a slot -/
+example : ((grunSched false fan4 (ginit fan4) fan4Sched).map fun g =>
+    (g.asleep 4, (gstepV false fan4 g (.tgt 4)).isSome)) = some (false, true) := by decide +kernel
+
 /-- C05 (D17 repaired): when `Run` returns, every started target has ended — the build is over. -/
 theorem C05_run_waits_all {P : Params} {s : State} (hr : Reachable P s) (e : Err) (hd : s.main = .done e) :
     ∀ l p, s.pc l = some p → p = .done :=
